@@ -127,6 +127,34 @@ CHECKS += [
           "accepted; imaginary flag of exact zero and '.0f' formatting are left open.",
   "technique": "bounded exhaustive enumeration (all pairs / all short arrays / all grammar strings) on the real code against exact rational ordering and decimal models"},
 ]
+CHECKS += [
+ {"property_id": "C08",
+  "text": "Bounded exhaustive exploration: generated tempo-format polyco texts (every non-empty subset of a 4-slot TMID grid under "
+          "4 spacing schemes: touching, overlapping, 0.5 ms gap, 10 min gap; 6-18 configurations of coefficient count (incl. not "
+          "multiples of 3), e/E/D/d exponents, span, F0, RPHASE up to 1e12; file order shuffled) and the shipped timing.dat, every "
+          "row subset; per entry a 13-point time grid incl. ends +-1 us; scalar, sorted, reversed, interleaved and 2-D array "
+          "calls; f0 with n=0,1,2; phasepol then predictions again (history); time_at; out-of-span and mixed-entry rejections; "
+          "interval merging. Oracle: the tempo formula in Fractions on the decimal strings.",
+  "note": "Trusts Fractions, an independent text parser/generator and the exact (jd1, jd2) of Time; budget 1e-8 cycle + "
+          "F0*86400*2^-51; times inside a <1 ms gap and exactly on span ends are left open.",
+  "technique": "bounded exhaustive enumeration of generated inputs and call histories on the real code against an exact rational reference model"},
+ {"property_id": "C16",
+  "text": "Bounded exhaustive exploration of the class contract: 6 classes x 28 shapes (rank 0..4, zero-size and wrong fixed axes, "
+          "zero-length) x 13 dtypes x NumPy/Dask constructors with validity predicted from the contract (np.can_cast safe rule); "
+          "metadata menus one at a time and all pairs; every setter with every menu value; every output of all 56 catalogue "
+          "operations on both backends and after a stepped slice; like() with and without overrides and across classes; pickle, "
+          "cloudpickle, deepcopy, compute, persist, to_dask_array, rechunk.",
+  "note": "Trusts the contract checker pbmc/invariants.py (written from the property statement) and NumPy's safe-cast table.",
+  "technique": "bounded exhaustive enumeration of constructor/assignment inputs plus an invariant monitor on every state reached by the operation catalogue"},
+ {"property_id": "C17",
+  "text": "Bounded exhaustive exploration: every NumPy ufunc without gufunc signature (85) x 8 signal variants (all classes; float, "
+          "int, bool, complex) x NumPy/Dask x 12 second-operand kinds x both orders; 18 operators x 4 operand kinds x both orders; "
+          "out= forms incl. two-output tuples, in-place operator chains; reduce/accumulate/reduceat/outer/at/matmul refused; "
+          "np.asarray/np.array with dtype and copy, and conversion / in-place write / conversion histories. Oracle: the same "
+          "ufunc on the underlying arrays.",
+  "note": "Trusts NumPy/Dask ufunc results on raw arrays as the reference; (superclass signal, subclass signal) dispatch order left open.",
+  "technique": "exhaustive enumeration of the ufunc x operand-arrangement alphabet on the real code with a differential oracle on the raw data"},
+]
 _ALL = ["C%02d" % i for i in range(1, 21)]
 NOT_APPLICABLE = [{"property_id": p, "reason": "check not yet built in this session (planned in DESIGN.md; no claim made yet)"}
                   for p in _ALL if p not in {c["property_id"] for c in CHECKS}]
